@@ -170,7 +170,8 @@ def run(ctx, only=None):
         # --- memory dict <-> dataframe
         for _ in range(2):
             ks = list({allpos[rng.randrange(len(allpos))] for _ in range(rng.randint(1, 6))})
-            md = {tuple(k): float(rng.randint(-9, 9)) for k in ks}
+            # scores as a memory dictionary holds them: any float, NaN and +-inf included (a NaN score is a stored result like any other)
+            md = {tuple(k): (float(rng.randint(-9, 9)) if rng.random() < 0.7 else rng.choice([math.nan, math.inf, -math.inf])) for k in ks}
             o = outcome(lambda: conv.memory_dict2dataframe(md))
             ss = Scaler([0.5])
             if o[0] == "ok":
@@ -178,7 +179,9 @@ def run(ctx, only=None):
                 back = outcome(lambda: {tuple(int(x) for x in k): float(v) for k, v in conv.dataframe2memory_dict(df).items()})
                 ctx.monitor_runs += 1
                 ctx.monitor_nontrivial.add((key, tuple(sorted(md))))
-                if distinct and (back[0] != "ok" or back[1] != md):
+                def same_md(a, b):
+                    return set(a) == set(b) and all((a[k] == b[k]) or (math.isnan(a[k]) and math.isnan(b[k])) for k in a)
+                if distinct and (back[0] != "ok" or not same_md(back[1], md)):
                     ctx.violation(dict(kind="memdict-roundtrip", ascending=asc), dict(space=jsonable(space), memory_dict=jsonable(sorted(md.items())), back=jsonable(back)),
                                   "memory_dict -> dataframe -> memory_dict does not return the same keys and scores")
                 # frames with an extra column, shuffled columns, a duplicated row
